@@ -158,14 +158,43 @@ def _need(stats, keys):
     return [k for k in keys if stats.get(k, 0) == 0]
 
 
-def _corpus_prop(pid, need, with_model=True, extra_assume=()):
+TABLES = {   # name -> (module, replay script, description of the enumerated space)
+    "sprout": ("Sprout", "harness/replay_sprout.py",
+               "Sprout.tla tables: DemeLimit (all rank vectors with ties x limits), LevelLimit (pooled candidates of root/A/B x "
+               "occupancy incl. more active demes than the limit x L), SkipSameSprout (equal / different seeds of the same / another "
+               "parent), FarEnough and NBC_FarEnough (3-4-5 lattice, distance = threshold exactly, norms 1/2/inf, active/inactive "
+               "siblings); every row replayed on the real filter objects with synthetic trees, both directions, exact scales"),
+}
+
+
+def _table_source(pid, name, tier):
+    from .mod_table import table_stage
+    module, replay, desc = TABLES[name]
+    st = table_stage(name, module, tier, replay)
+    viols, rep = _table_result(pid, st, module)
+    info = {"module": module + ".tla", "cfg": st["tlc"]["cfg"], "distinct_states": st["tlc"]["distinct"],
+            "generated": st["tlc"]["generated"], "table_rows": st.get("table_rows"), "replayed_calls": rep.get("evaluations", 0),
+            "space": desc, "samples": rep.get("samples", [])[:2]}
+    return st, viols, info
+
+
+def _corpus_prop(pid, need, with_model=True, extra_assume=(), tables=()):
     def fn(tier: str) -> PropResult:
         cs, v1 = _corpus_violations(pid, tier)
         ms, v2 = _model_violations(pid, tier) if with_model else (None, [])
         vac = _need(cs["stats"], need)
         if ms and ms["untaken_actions"]:
             vac += ["model action never taken: " + a for a in ms["untaken_actions"]]
-        return PropResult(v1 + v2, _corpus_cov(cs, ms, pid), ASSUME_TRACE + list(extra_assume), vacuity=vac)
+        cov = _corpus_cov(cs, ms, pid)
+        v3 = []
+        for t in tables:
+            st, vt, info = _table_source(pid, t, tier)
+            v3 += vt
+            cov.setdefault("function_tables", {})[t] = info
+            cov["states"] += info["distinct_states"]
+            cov["transitions"] += info["generated"]
+            cov["traces_validated_against_impl"] += info["table_rows"] or 0
+        return PropResult(v1 + v2 + v3, cov, ASSUME_TRACE + list(extra_assume), vacuity=vac)
     REGISTRY[pid] = fn
     return fn
 
@@ -181,8 +210,11 @@ _corpus_prop("C05", ["gsc_first_true_at:run", "gsc_first_true_at:step", "gsc_fir
                      "gsc:WeightedEvalLimit", "gsc:RootStopped", "gsc:AllStopped", "gsc:NoActiveNonroot", "gsc:Scripted"])
 _corpus_prop("C06", ["lsc_true", "ev:lsc", "rounds_with_sprouts", "hibernation_on", "hibernation_off"])
 _corpus_prop("C07", ["rounds_with_sprouts", "rounds_with_several_parents", "levels=3", "levels=1"])
-_corpus_prop("C08", ["rounds_with_sprouts", "rounds_where_filters_removed", "rounds_with_several_parents", "lsc_true"])
-_corpus_prop("C09", ["far_atoms", "rounds_with_sprouts"], with_model=False)
+_corpus_prop("C08", ["rounds_with_sprouts", "rounds_where_filters_removed", "rounds_with_several_parents", "lsc_true"],
+             tables=("sprout",))
+_corpus_prop("C09", ["far_atoms", "rounds_with_sprouts"], with_model=False, tables=("sprout",))
+_corpus_prop("C10", ["rounds_with_sprouts", "rounds_where_filters_removed", "rounds_with_several_parents", "maximize"],
+             with_model=False, tables=("sprout",))
 _corpus_prop("C11", ["generations_recorded", "engine:SEA", "engine:DE", "engine:SHADE", "engine:CMA", "engine:MWEA"],
              with_model=False)
 _corpus_prop("C12", ["generations_recorded", "engine:SEA", "engine:DE", "engine:SHADE", "maximize"], with_model=False)
